@@ -101,12 +101,18 @@ Proof.
 Qed.
 
 (* ---------- walk_table_updating_sketch ---------- *)
+(* pairs drawn from the set bits of B, offered to a sketch of A in any order and any multiplicity, never make its
+   surprising-value table outgrow its capacity (the order in which a source table is walked is layout-dependent) *)
+Definition fits_any (lg : N) (A B : matrix) : Prop :=
+  forall l, (forall x, In x l -> x / 64 < 2 ^ lg /\ N.testbit (B (x / 64)) (x mod 64) = true) -> fits_stream lg A l.
+
 Lemma walk_ok : forall lg acc A si lgi Mi tab,
   Inv lg acc A -> Inv lgi si Mi -> Mw64 lgi Mi -> windowed si = false -> c_table si = Some tab -> lg <= lgi ->
   8 * pop_rows (mor A (mfold lgi lg Mi)) (Knat lg) < 475 * 2 ^ lg ->
+  fits_any lg A (mfold lgi lg Mi) ->
   exists acc', walk_table_updating_sketch acc tab = Ok acc' /\ Inv lg acc' (mor A (mfold lgi lg Mi)).
 Proof.
-  intros lg acc A si lgi Mi tab IA I H64 Hw Ht Hl Hdom.
+  intros lg acc A si lgi Mi tab IA I H64 Hw Ht Hl Hdom Hfa.
   pose proof (inv_lgk lg acc A IA) as Hla. pose proof (inv_range lg acc A IA) as Hrg.
   pose proof (inv_range lgi si Mi I) as Hrgi.
   destruct (tab_facts lgi si Mi tab I Ht) as [_ [Hrows Hnomax]].
@@ -135,6 +141,10 @@ Proof.
       destruct (mask_pair lg rc) as [E1 E2]. rewrite E1, E2. lia. }
   destruct (run_inv lg items acc A IA HF) as [acc' [E I']].
   { rewrite (pop_rows_below (Knat lg) _ _ ltac:(rewrite Knat_N; exact HB)). exact Hdom. }
+  { apply Hfa. intros x Hx. apply in_map_iff in Hx. destruct Hx as [rc [<- Hin]].
+    destruct (mask_pair lg rc) as [E1 E2]. rewrite E1, E2.
+    assert (Hr : (rc / 64) mod 2 ^ lg < 2 ^ lg) by (apply N.mod_lt; lia). split; [exact Hr|].
+    apply (sparse_fold_bit lg lgi si Mi tab _ _ I H64 Hw Ht Hl Hr). exists rc. repeat split; assumption || reflexivity. }
   exists acc'. split; [exact E|]. apply (inv_ext lg acc' _ _ I' HB).
 Qed.
 
@@ -312,9 +322,10 @@ Qed.
 (* ---------- reduce_k ---------- *)
 Lemma reduce_k_ok : forall u lg M nl, Urep u lg M -> 4 <= nl -> nl < lg ->
   8 * pop_rows (mfold lg nl M) (Knat nl) < 475 * 2 ^ nl ->
+  (32 * pop_rows M (Knat lg) < 3 * 2 ^ lg -> fits_any nl mzero (mfold lg nl M)) ->
   exists u', reduce_k u nl = Ok u' /\ Urep u' nl (mfold lg nl M).
 Proof.
-  intros u lg M nl [Hl Hrg Hnm H64 Hst] H4 Hlt Hdom.
+  intros u lg M nl [Hl Hrg Hnm H64 Hst] H4 Hlt Hdom Hfa.
   assert (Hnm' : Mnomax nl (mfold lg nl M)) by (apply Mnomax_mfold; [lia|lia|exact Hnm]).
   assert (H64' : Mw64 nl (mfold lg nl M)) by (apply Mw64_mfold; [lia|exact H64]).
   unfold reduce_k. destruct (u_st u) as [sk|m].
@@ -334,6 +345,8 @@ Proof.
       destruct (table_some lg sk M I ltac:(lia)) as [tab Ht]. rewrite Ht.
       destruct (walk_ok nl s0 mzero sk lg M tab I0 I H64 Hw Ht ltac:(lia)) as [ns' [Ew I']].
       { rewrite (pop_rows_below (Knat nl) _ (mfold lg nl M)) by (rewrite Knat_N; apply mor_zero_l). exact Hdom. }
+      { apply Hfa. rewrite <- Hn. pose proof (inv_win lg sk M I) as Hwin.
+        destruct (N.lt_ge_cases (32 * c_num sk) (3 * 2 ^ lg)) as [L|L]; [exact L|]. apply Hwin in L. congruence. }
       rewrite Ew. cbn [obind].
       assert (I'' : Inv nl ns' (mfold lg nl M)) by (apply (inv_ext nl ns' _ _ I'); apply mor_zero_l).
       assert (HC' : c_num ns' <> 0).
@@ -384,14 +397,24 @@ Proof.
   rewrite (rep_num s M (inv_rep lg s M I)), (inv_lgk lg s M I). reflexivity.
 Qed.
 
+(* the two table walks an update can contain stay within the table capacity, whatever their order:
+   reduce_k re-inserting a non-empty sparse accumulator into a smaller sketch, and case A merging a sparse source
+   into the (sparse) accumulator.  Nothing is required when the union already holds a bit matrix. *)
+Definition ustep_fits (lg : N) (M : matrix) (lgi : N) (Mi : matrix) : Prop :=
+  (lgi < lg -> 32 * pop_rows M (Knat lg) < 3 * 2 ^ lg -> fits_any lgi mzero (mfold lg lgi M)) /\
+  (32 * pop_rows Mi (Knat lgi) < 3 * 2 ^ lgi ->
+   32 * pop_rows (mfold lg (N.min lg lgi) M) (Knat (N.min lg lgi)) < 3 * 2 ^ N.min lg lgi ->
+   fits_any (N.min lg lgi) (mfold lg (N.min lg lgi) M) (mfold lgi (N.min lg lgi) Mi)).
+
 Theorem union_update_ok : forall u lg M si lgi Mi,
   Urep u lg M -> Vin si lgi Mi ->
   8 * pop_rows (snd (uspec_step (lg, M) (lgi, Mi))) (Knat (fst (uspec_step (lg, M) (lgi, Mi)))) <
     475 * 2 ^ fst (uspec_step (lg, M) (lgi, Mi)) ->
+  ustep_fits lg M lgi Mi ->
   exists u', union_update u si = Ok u' /\
              Urep u' (fst (uspec_step (lg, M) (lgi, Mi))) (snd (uspec_step (lg, M) (lgi, Mi))).
 Proof.
-  intros u lg M si lgi Mi U [I H64i] Hdom.
+  intros u lg M si lgi Mi U [I H64i] Hdom [Hfr Hfa].
   pose proof (inv_lgk lgi si Mi I) as Hli. pose proof (inv_range lgi si Mi I) as Hrgi.
   pose proof (ur_lgk u lg M U) as Hlu. pose proof (ur_range u lg M U) as Hrg.
   unfold uspec_step in *. rewrite (in_empty_num lgi si Mi I) in *. cbn [fst snd] in *.
@@ -413,7 +436,8 @@ Proof.
     - assert (E : lg' = lgi) by (unfold lg'; lia).
       pose proof (pop_rows_mor_l M1 B (Knat lg')) as P.
       assert (D1 : 8 * pop_rows M1 (Knat lg') < 475 * 2 ^ lg') by lia.
-      unfold M1 in *. rewrite E in *. apply reduce_k_ok; [exact U|lia|lia|exact D1].
+      unfold M1 in *. rewrite E in *. apply reduce_k_ok; [exact U|lia|lia|exact D1|].
+      intros Hs. apply Hfr; [lia|exact Hs].
     - assert (E : lg' = lg) by (unfold lg'; lia). unfold M1. rewrite E in *.
       exists u. split; [reflexivity|]. apply (urep_ext u lg M); [exact U|]. apply mbelow_sym, mfold_id. }
   destruct S1 as [u1 [E1 U1]]. rewrite E1. cbn [obind].
@@ -431,7 +455,11 @@ Proof.
       assert (Hwalk : exists u', obind (walk_table_updating_sketch old tab)
                  (fun old' => if SPARSE <? cpc_flavor old' then to_matrix_state lg' old' else Ok (mkU lg' (UAcc old'))) = Ok u' /\
                  Urep u' lg' (mor M1 B)).
-      { destruct (walk_ok lg' old M1 si lgi Mi tab Io I H64i Hw Ht Hl' Hdom) as [old' [Ew I']].
+      { assert (Hfa' : fits_any lg' M1 B).
+        { apply Hfa; [rewrite <- Hni; exact Hsp|]. fold lg'. fold M1. rewrite <- Hno.
+          pose proof (inv_win lg' old M1 Io) as Hwin'.
+          destruct (N.lt_ge_cases (32 * c_num old) (3 * 2 ^ lg')) as [L|L]; [exact L|]. apply Hwin' in L. congruence. }
+        destruct (walk_ok lg' old M1 si lgi Mi tab Io I H64i Hw Ht Hl' Hdom Hfa') as [old' [Ew I']].
         rewrite Ew. cbn [obind]. apply acc_or_matrix; [exact I'| |].
         - apply Mw64_mor; [exact H641|apply Mw64_mfold; assumption].
         - pose proof (rep_num old' _ (inv_rep lg' old' _ I')) as Hn'. rewrite (inv_lgk lg' old' _ I') in Hn'.
@@ -487,22 +515,27 @@ Proof.
   destruct W. constructor; assumption.
 Qed.
 
+(* the surprising values of a dense result fit the table that to_sketch builds *)
+Definition result_fits (lg : N) (M : matrix) : Prop :=
+  3 * 2 ^ lg <= 32 * pop_rows M (Knat lg) ->
+  tbl_full lg (load lg M true (coff (2 ^ lg) (pop_rows M (Knat lg)))) = false.
+
 Theorem union_to_sketch_ok : forall u lg M, Urep u lg M -> 8 * pop_rows M (Knat lg) < 475 * 2 ^ lg ->
-  exists s, union_to_sketch u = Ok s /\ Inv lg s M /\ (c_num s <> 0 -> c_merge s = true).
+  result_fits lg M ->
+  exists s, union_to_sketch u = Ok s /\ Inv lg s M /\ c_merge s = true.
 Proof.
-  intros u lg M [Hl Hrg Hnm H64 Hst] Hdom. pose proof (pow_pos lg) as HK.
+  intros u lg M [Hl Hrg Hnm H64 Hst] Hdom Hrf. pose proof (pow_pos lg) as HK.
   unfold union_to_sketch. rewrite Hl. destruct (u_st u) as [sk|m].
   - destruct Hst as [I Hw]. pose proof (rep_num sk M (inv_rep lg sk M I)) as Hn. rewrite (inv_lgk lg sk M I) in Hn.
     unfold cpc_is_empty. destruct (c_num sk =? 0) eqn:EC.
-    + destruct (new_inv lg Hrg) as [s0 [E0 I0]]. exists s0. split; [exact E0|].
+    + destruct (new_inv lg Hrg) as [s0 [E0 I0]]. exists (set_merge s0 true). rewrite E0. cbn [obind]. split; [reflexivity|].
       assert (HB : mbelow (2 ^ lg) mzero M).
       { intros r Hr. pose proof (pop_rows_zero_rows M (Knat lg) ltac:(lia) (N.to_nat r) ltac:(unfold Knat; lia)) as Z.
         rewrite N2Nat.id in Z. rewrite Z. reflexivity. }
-      split; [apply (inv_ext lg s0 mzero M I0 HB)|].
-      pose proof (rep_num s0 mzero (inv_rep lg s0 mzero I0)) as Hn0. rewrite pop_rows_zero in Hn0. intros H. contradiction.
+      split; [apply inv_set_merge; apply (inv_ext lg s0 mzero M I0 HB)|reflexivity].
     + destruct (flavor_facts lg sk M I) as [[_ H0]|[[Hf _]|[[_ [_ [Hx _]]]|[_ [_ [Hx _]]]]]]; try congruence; try lia.
       rewrite Hf. change (SPARSE =? SPARSE) with true. cbn [negb]. eexists. split; [reflexivity|].
-      split; [apply inv_set_merge; exact I|]. intros _. reflexivity.
+      split; [apply inv_set_merge; exact I|]. reflexivity.
   - destruct Hst as [Em Hd]. destruct (new_inv lg Hrg) as [s0 [E0 _]]. rewrite E0. cbn [obind].
     rewrite Em, rows_of_length, Knat_N, N.eqb_refl. cbn [negb]. rewrite count_rows.
     set (C := pop_rows M (Knat lg)) in *.
@@ -518,14 +551,17 @@ Proof.
     assert (Hmnm : forall r c, r < 2 ^ lg -> c < 64 -> N.testbit (nthN m0 r 0) c = true -> r * 64 + c <> U32MAX).
     { intros r c Hr Hc Hb. rewrite (HmM r Hr) in Hb. apply (Hnm r c Hr Hc Hb). }
     uconsts.
-    destruct (from_matrix_succeeds lg m0 (coff (2 ^ lg) C) Hlen H56 Hmnm) as [win [tab [fic Efm]]].
+    assert (Hfit' : tbl_full lg (load lg (fun r => nthN m0 r 0) true (coff (2 ^ lg) C)) = false).
+    { rewrite <- (Hrf Hd). unfold C. f_equal. unfold load. f_equal. f_equal. apply filter_ext_in. intros x Hx.
+      apply positions_In in Hx. unfold surp. assert (Hr : x / 64 < 2 ^ lg) by lia. rewrite (HmM _ Hr). reflexivity. }
+    destruct (from_matrix_succeeds lg m0 (coff (2 ^ lg) C) Hlen H56 Hmnm Hfit') as [win [tab [fic Efm]]].
     rewrite Efm. cbn [obind]. eexists. split; [reflexivity|].
     destruct (from_matrix_state lg m0 (coff (2 ^ lg) C) C fic true (c_kxp s0) (c_hip s0) win tab fic
                 Hlen Hm64 H56 HC Hmnm Efm) as [W2 [Hw2 Hb2]].
     assert (Hfic : fic = fm_fic (coff (2 ^ lg) C) (map (fm_pattern 255 (coff (2 ^ lg) C)) m0)).
-    { unfold from_matrix in Efm. destruct (memN U32MAX _); [discriminate|]. injection Efm as _ _ <-. reflexivity. }
+    { exact (from_matrix_fic _ _ _ _ _ _ _ _ Efm). }
     destruct (fm_fic_ok lg m0 (coff (2 ^ lg) C) Hlen H56) as [F1 F2]. rewrite <- Hfic in F1, F2.
-    split; [|intros _; reflexivity].
+    split; [|reflexivity].
     constructor; proj; try assumption; try reflexivity.
     + constructor; proj.
       * exact W2.
@@ -563,20 +599,28 @@ Qed.
 
 Definition ins_of (l : list (cpc * N * matrix)) : list uinput := map (fun x => (snd (fst x), snd x)) l.
 
+(* every update of the sequence keeps its table walks within the capacity *)
+Fixpoint usteps_fit (a : uinput) (ins : list uinput) : Prop :=
+  match ins with
+  | [] => True
+  | i :: r => ustep_fits (fst a) (snd a) (fst i) (snd i) /\ usteps_fit (uspec_step a i) r
+  end.
+
 Lemma union_run_ok : forall l u lg M,
   Urep u lg M -> Forall (fun x => Vin (fst (fst x)) (snd (fst x)) (snd x)) l ->
   dom (fold_left uspec_step (ins_of l) (lg, M)) ->
+  usteps_fit (lg, M) (ins_of l) ->
   exists u', union_run u (map (fun x => fst (fst x)) l) = Ok u' /\
              Urep u' (fst (fold_left uspec_step (ins_of l) (lg, M))) (snd (fold_left uspec_step (ins_of l) (lg, M))).
 Proof.
-  induction l as [|[[s lgi] Mi] l IH]; intros u lg M U HF Hdom; cbn [map union_run ins_of fold_left fst snd] in *.
+  induction l as [|[[s lgi] Mi] l IH]; intros u lg M U HF Hdom Hfit; cbn [map union_run ins_of fold_left fst snd usteps_fit] in *.
   - exists u. split; [reflexivity|exact U].
   - inversion HF as [|? ? Hv HF']; subst. cbn [fst snd] in Hv.
-    fold (ins_of l) in *.
+    fold (ins_of l) in *. destruct Hfit as [Hf1 Hfit'].
     assert (D1 : dom (uspec_step (lg, M) (lgi, Mi))).
     { apply (dom_fold_back (ins_of l)); [|exact Hdom]. pose proof (ur_range u lg M U).
       unfold uspec_step. destruct (in_empty (lgi, Mi)); cbn [fst]; lia. }
-    destruct (union_update_ok u lg M s lgi Mi U Hv D1) as [u1 [E1 U1]].
+    destruct (union_update_ok u lg M s lgi Mi U Hv D1 Hf1) as [u1 [E1 U1]].
     rewrite E1. cbn [obind].
     destruct (uspec_step (lg, M) (lgi, Mi)) as [lg1 M1] eqn:Es. cbn [fst snd] in *.
     apply IH; assumption.
@@ -622,10 +666,10 @@ Qed.
 
 (* every sketch reachable by updates is a valid union input *)
 Lemma cpc_run_vin : forall lgk cs s,
-  4 <= lgk <= 26 -> Forall (valid lgk) cs -> 8 * distinct cs < 475 * 2 ^ lgk ->
+  4 <= lgk <= 26 -> Forall (valid lgk) cs -> 8 * distinct cs < 475 * 2 ^ lgk -> cpc_fits lgk cs ->
   cpc_run lgk cs = Ok s -> Vin s lgk (spec cs).
 Proof.
-  intros lgk cs s Hrg HF Hd E. destruct (cpc_run_inv lgk cs Hrg HF Hd) as [s' [E' I]].
+  intros lgk cs s Hrg HF Hd Hfit E. destruct (cpc_run_inv lgk cs Hrg HF Hd Hfit) as [s' [E' I]].
   rewrite E in E'. injection E' as <-. split; [exact I|]. intros r _. apply Mwf_spec.
 Qed.
 
@@ -636,6 +680,7 @@ Definition union_of (lg0 : N) (sks : list cpc) : outcome cpcu := obind (union_ne
 Theorem cpc_union_refines : forall lg0 l,
   4 <= lg0 <= 26 -> Forall (fun x => Vin (fst (fst x)) (snd (fst x)) (snd x)) l ->
   dom (uspec lg0 (ins_of l)) ->
+  usteps_fit (lg0, mzero) (ins_of l) -> result_fits (fst (uspec lg0 (ins_of l))) (snd (uspec lg0 (ins_of l))) ->
   exists u, union_of lg0 (map (fun x => fst (fst x)) l) = Ok u /\
     u_lgk u = fst (uspec lg0 (ins_of l)) /\
     union_num_coupons u = pop_rows (snd (uspec lg0 (ins_of l))) (Knat (fst (uspec lg0 (ins_of l)))) /\
@@ -649,19 +694,19 @@ Theorem cpc_union_refines : forall lg0 l,
       (c_win s = [] <-> cpc_flavor s <= SPARSE) /\
       fic_ok (fst (uspec lg0 (ins_of l))) s (snd (uspec lg0 (ins_of l))) /\
       cpc_validate s = Ok true /\
-      (c_num s <> 0 -> c_merge s = true).
+      c_merge s = true.
 Proof.
-  intros lg0 l Hrg HF Hdom. unfold union_of.
+  intros lg0 l Hrg HF Hdom Hsf Hrf. unfold union_of.
   destruct (union_new_rep lg0 Hrg) as [u0 [E0 U0]]. rewrite E0. cbn [obind].
   unfold uspec in *.
-  destruct (union_run_ok l u0 lg0 mzero U0 HF Hdom) as [u [E U]].
+  destruct (union_run_ok l u0 lg0 mzero U0 HF Hdom Hsf) as [u [E U]].
   set (a := fold_left uspec_step (ins_of l) (lg0, mzero)) in *.
   exists u. split; [exact E|]. split; [apply (ur_lgk u _ _ U)|].
   split.
   { unfold union_num_coupons. pose proof (ur_st u _ _ U) as Hst. destruct (u_st u) as [sk|m].
     - destruct Hst as [I _]. rewrite (rep_num sk _ (inv_rep _ sk _ I)), (inv_lgk _ sk _ I). reflexivity.
     - destruct Hst as [-> _]. apply count_rows. }
-  destruct (union_to_sketch_ok u (fst a) (snd a) U Hdom) as [s [Es [I Hm]]].
+  destruct (union_to_sketch_ok u (fst a) (snd a) U Hdom Hrf) as [s [Es [I Hm]]].
   exists s. split; [exact Es|].
   pose proof (ur_w64 u _ _ U) as H64.
   assert (Hd : 8 * c_num s < 475 * 2 ^ fst a).
@@ -678,16 +723,31 @@ Proof.
   rewrite count_rows. exact Hd.
 Qed.
 
-(* the empty union's result is a fresh sketch whose merge flag is NOT set *)
-Lemma union_empty_result_not_merged :
-  exists u s, union_of 11 [] = Ok u /\ union_to_sketch u = Ok s /\ c_num s = 0 /\ c_merge s = false.
-Proof. eexists. eexists. split; [reflexivity|]. split; [reflexivity|]. split; reflexivity. Qed.
-
 Theorem cpc_union_no_stuck : forall lg0 l,
   4 <= lg0 <= 26 -> Forall (fun x => Vin (fst (fst x)) (snd (fst x)) (snd x)) l ->
   dom (uspec lg0 (ins_of l)) ->
+  usteps_fit (lg0, mzero) (ins_of l) -> result_fits (fst (uspec lg0 (ins_of l))) (snd (uspec lg0 (ins_of l))) ->
   exists u s, union_of lg0 (map (fun x => fst (fst x)) l) = Ok u /\ union_to_sketch u = Ok s.
 Proof.
-  intros lg0 l H1 H2 H3. destruct (cpc_union_refines lg0 l H1 H2 H3) as [u [E [_ [_ [s [Es _]]]]]].
+  intros lg0 l H1 H2 H3 H4 H5. destruct (cpc_union_refines lg0 l H1 H2 H3 H4 H5) as [u [E [_ [_ [s [Es _]]]]]].
   exists u, s. split; assumption.
+Qed.
+
+(* a union result stays a valid sketch under further updates: it satisfies the C05 invariant, so every further
+   valid pair inside the domain (and the table capacity) is absorbed without reaching a panic site and the
+   invariant, hence the refinement to the OR-ed matrix plus the new pairs, is kept *)
+Theorem union_result_updatable : forall s lg M cs,
+  Vin s lg M -> Forall (valid lg) cs ->
+  8 * pop_rows (fold_left spec_update cs M) (Knat lg) < 475 * 2 ^ lg -> fits_stream lg M cs ->
+  exists s', run_from s cs = Ok s' /\ Vin s' lg (fold_left spec_update cs M).
+Proof.
+  intros s lg M cs [I H64] HF Hd Hfs. destruct (run_inv lg cs s M I HF Hd Hfs) as [s' [E I']].
+  exists s'. split; [exact E|]. split; [exact I'|apply Mw64_fold_update; exact H64].
+Qed.
+
+(* nothing to walk: no pair can be drawn from an all-zero matrix *)
+Lemma fits_any_nil : forall lg A B, (forall r c, r < 2 ^ lg -> N.testbit (B r) c = false) -> fits_any lg A B.
+Proof.
+  intros lg A B H l Hl. destruct l as [|x l]; [exact I|].
+  destruct (Hl x (or_introl eq_refl)) as [Hr Hb]. rewrite (H _ _ Hr) in Hb. discriminate.
 Qed.
